@@ -273,6 +273,14 @@ func ParsePKCS8EcryptedPrivateKey(der, pwd []byte) (*sm2.PrivateKey, error) {
 	if err != nil {
 		return nil, err
 	}
+	// iv and ciphertext come straight from the input: the CBC constructor
+	// and CryptBlocks panic on lengths they do not accept
+	if len(iv) != block.BlockSize() {
+		return nil, errors.New("x509: invalid IV length in encrypted private key")
+	}
+	if len(encryptedKey) == 0 || len(encryptedKey)%block.BlockSize() != 0 {
+		return nil, errors.New("x509: encrypted private key is not a multiple of the block size")
+	}
 	mode := cipher.NewCBCDecrypter(block, iv)
 	mode.CryptBlocks(encryptedKey, encryptedKey)
 	rKey, err := ParsePKCS8UnecryptedPrivateKey(encryptedKey)
